@@ -499,6 +499,8 @@ def check_property(pid, tier='quick', seed=0):
         from . import thorough as th
         for ur in runs:
             for job in ur.unit.bounded:
+                if pid not in job.get('props', ur.unit.props + ur.unit.safety_props):
+                    continue
                 if tier == 'thorough' or job.get('quick'):
                     r = th.run_kani_job(ur.unit, job, workdir)
                     bounded.append(r['summary'])
